@@ -1,6 +1,9 @@
 package main
 
-import "regexp"
+import (
+	"regexp"
+	"strings"
+)
 
 // Genuine defects found with G: documented forms that memefish implements (it has the AST node and a parser branch for
 // the construct) but rejects in this spelling.  The sentences stay in G; propC08 reports them under "G-known:<production>"
@@ -26,7 +29,6 @@ var gKnownPatterns = []struct {
 }{
 	{"search_index_interleave_after_list", regexp.MustCompile(`(?i)\b(ORDER|PARTITION) BY [^()]*, INTERLEAVE IN\b`), "CREATE SEARCH INDEX: ', INTERLEAVE IN' directly after a PARTITION BY / ORDER BY list is taken for another list element"},
 	{"table_subquery_in_parens", regexp.MustCompile(`(?i)\(\(+(SELECT|WITH|FROM)\b`), "a table subquery whose query_expr is itself parenthesised is taken for a parenthesised join: FROM ((SELECT 1))"},
-	{"subscript_offset_ordinal_column", regexp.MustCompile(`(?i)\[(SAFE_)?(OFFSET|ORDINAL)\b`), "a subscript expression that starts with a column or function named offset / ordinal (a[offset], a[ORDINAL * 2], a[ordinal(x => 1).f]) is taken for the position keyword"},
 	{"dot_float_after_word", regexp.MustCompile("(?i)[A-Za-z0-9_`] \\.[0-9]"), "a float literal written .5 directly after an identifier or keyword-like word (AS VALUE .5, SELECT AS T .5, HAVING MAX .5, THEN RETURN .5, WITH ACTION .5) lexes as '.' and an identifier (the lexer's dot-identifier mode after an identifier token)"},
 }
 
@@ -69,4 +71,21 @@ var gExcluded = []struct {
 }{
 	// column types of the DDL: STRING and BYTES must carry a length; a proto/enum type cannot be spelled like them
 	{regexp.MustCompile(`(?i)^(CREATE|ALTER) .*\b(STRING|BYTES)\b *([^( ]|$)`), "STRING / BYTES without a length as a DDL column type (the identifier pool put the word where a proto type name goes)"},
+}
+
+// gExcludedToks: the same, decided on the generator's token list.  A FUNCTION named offset / ordinal / safe_offset /
+// safe_ordinal called at the head of a plain subscript expression (a[ordinal(x) / 2], a[offset(1, 2)]): the production
+// `subscript: index: expr` derives it (the words are not reserved, so the identifier pool may put one where a function name
+// goes), but GoogleSQL itself reads `[` word `(` as the position keyword, and so does memefish (parseIndexSpecifier takes the
+// word for the keyword exactly when "(" follows).  A COLUMN of that name (a[offset], a[ordinal * 2]) is NOT excluded.
+func gExcludedToks(toks []gTok) bool {
+	for i := 0; i+2 < len(toks); i++ {
+		if toks[i].text == "[" && !toks[i+1].kw && toks[i+2].text == "(" {
+			switch strings.ToUpper(toks[i+1].text) {
+			case "OFFSET", "ORDINAL", "SAFE_OFFSET", "SAFE_ORDINAL":
+				return true
+			}
+		}
+	}
+	return false
 }
